@@ -14,7 +14,10 @@ Definition args_of (i : instr) : list arg :=
   | I_advance_loc d => [AInt d]
   | I_offset r o => [AInt r; AInt (lv o)]
   | I_restore r => [AInt r]
-  | I_nop | I_remember_state | I_restore_state | I_GNU_window_save => []
+  | I_nop | I_remember_state | I_restore_state | I_GNU_window_save
+  | I_AARCH64_negate_ra_state_with_pc => []
+  | I_MIPS_advance_loc8 d => [AInt d]
+  | I_GNU_negative_offset_extended r o => [AInt (lv r); AInt (lv o)]
   | I_set_loc a => [AInt a]
   | I_advance_loc1 d | I_advance_loc2 d | I_advance_loc4 d => [AInt d]
   | I_offset_extended r o | I_register r o | I_def_cfa r o | I_val_offset r o
